@@ -1,4 +1,5 @@
 import IndicatifModel.Model.DrawTarget
+import IndicatifModel.Proofs.WideRows
 /-!
 # C19 — height overflow: the managed region never grows beyond the terminal
 -/
@@ -193,6 +194,44 @@ theorem C19_leading_bars_painted (fx : Fixes) (W H : Nat) (ds : DrawState) (n : 
   obtain ⟨l, hp, hb, hgt⟩ := fitPrefix_maximal W H ds.lines 0 h
   have hgt' : barRowsOf W (fitPrefix W H 0 ds.lines) + wrappedHeight W l > H := by omega
   exact ⟨l, hp, hb, hgt'⟩
+
+/-- **C19 (wrapped rows are accounted for, double-width glyphs included).** On a terminal of `W ≥ 2` columns, a line made of any
+mix of zero-, one- and two-column glyphs written from the first column of a row leaves the cursor exactly
+`wrapped_height − 1` rows further down (absolute rows: scrolling included): `LineType::wrapped_height`, through
+`padded_width`, counts exactly the rows the terminal model uses — the early wrap of a double-width glyph that finds one column
+left and the pending wrap in the last column included — so the redraw that moves up by the sum of these heights
+reaches the first row of the frame. -/
+theorem C19_wrapped_rows_accounted (W : Nat) (hW : 2 ≤ W) (t : Term) (htW : t.W = W) (hc : t.c = 0) (l : Line)
+    (hg : ∀ g ∈ l.gs, g.w ≤ 2) :
+    (t.writeG l.gs).a + 1 = t.a + wrappedHeight W l := by
+  have hat := writeG_at W t.a hW l.gs t 0 0 htW hg (Or.inl ⟨rfl, rfl, hc⟩)
+  have htot := padStep_total W l.gs 0 0
+  have hfil : l.gs.filter (fun g => decide (g.w > W)) = [] := by
+    apply List.filter_eq_nil_iff.mpr
+    intro g hgm
+    have := hg g hgm
+    simp only [decide_eq_true_eq]; omega
+  rw [hfil] at htot
+  have hpad : l.padded W = (l.gs.foldl (Text.padStep W) (0, 0)).1 := by
+    unfold Line.padded Text.padded
+    simp [Text.cols] at htot
+    unfold Text.cols
+    omega
+  unfold wrappedHeight
+  rw [hpad]
+  rcases hat with ⟨h0, ha, _⟩ | ⟨q, r, hr, hcol, ha, _⟩
+  · rw [h0, ha]
+    have : (0 + W - 1) / W = 0 := Nat.div_eq_of_lt (by omega)
+    rw [this]; simp
+  · rw [hcol, ha]
+    have h1 : q * W + r + 1 + W - 1 = W * (q + 1) + r := by rw [Nat.mul_add, Nat.mul_comm]; omega
+    rw [h1, Nat.mul_add_div (by omega : 0 < W), Nat.div_eq_of_lt hr]
+    simp only [Nat.add_zero]
+    omega
+
+/-- non-vacuity: on 5 columns, `ab日本語` takes two rows (the second ideograph wraps early from the last column) -/
+example : wrappedHeight 5 { kind := .bar, gs := [⟨97, 1⟩, ⟨98, 1⟩, ⟨26085, 2⟩, ⟨26412, 2⟩, ⟨35486, 2⟩] } = 2 ∧
+    ((Term.init 5 4).writeG [⟨97, 1⟩, ⟨98, 1⟩, ⟨26085, 2⟩, ⟨26412, 2⟩, ⟨35486, 2⟩]).a = 1 := by decide
 
 /-- **A frame after a cut-off frame whose rows were all kept starts on a fresh row** (repair of F33).
 When the previous frame was cut off at the terminal height (`unparked`) and nothing is to be erased
